@@ -1,21 +1,47 @@
 (* MddProgress.v — the STRUCTURAL contracts of SolverProofs.v (K0, K1, K3_good, K3_depth, K5) proved about
    Mdd.compile for the clean flavours (CleanLEL, CleanFC), without cache, dominance rule or cutoff, for
-   a static variable order.
+   a static variable order.  (K2, K3_ub, K4 — the bound / simulation contracts — are not treated here.)
 
-   Section hypotheses (section Progress): st_eqb_spec, Hclean, Hnocache, Hnodom, Hnocut, Hwidth,
-   nv_some, nv_none, Hroot_depth, dom_bound (K5 only).  nv_static is listed for documentation, no proof
-   needs it.
+   Section hypotheses (section Progress, about the compilation input [inp]):
+     st_eqb_spec  : forall a b, st_eqb a b = true <-> a = b
+     Hclean       : ci_flavour inp = CleanLEL \/ ci_flavour inp = CleanFC
+     Hnocache     : ci_use_cache inp = false          Hnodom : ci_domrule inp = None
+     Hnocut       : ci_cutoff inp = 0                 Hwidth : 1 <= ci_width inp
+     nv_some      : forall k l, k < N -> exists x, next_variable pb k l = Some x
+     nv_none      : forall k l, N <= k -> next_variable pb k l = None
+     Hroot_depth  : sp_depth root <= N
+     dom_bound    : forall x s, length (domain pb x s) <= D            (only for the size bound, K5)
+   nv_static (next_variable does not look at the layer) is declared for documentation only: no proof
+   uses it, nv_some / nv_none already quantify over every layer content.
+   Every theorem below depends on all of st_eqb_spec .. Hroot_depth (through compile_unfold), and on
+   nothing else; cutset_size_bound / compile_node_count additionally on dom_bound.
 
    Main results (for compile st_eqb inp tb tb2 c ds polls = (m, out)):
      P0  compile_completes           out = Compiled /\ m_crash m = false
-     P1  compile_node_depth, compile_layer_depth, compile_best_depth, compile_next_depth
-     P2  cutset_depth                (relaxed, not exact) root depth < sp_depth sp <= N
-     P3  cutset_size_bound           length (drain_cutset inp m) <= Mbound
-     P4  cutset_good, best_exact_feasible, good_set_ub_holds
-   and, in section Assembly, the same in the exact shape of the hypotheses of SolverProofs.v:
-     K0_holds, K1_holds, K3_good_holds, K3_depth_holds, K5_holds.
-   Stdlib only; no axioms. *)
-Require Import DDO.Base DDO.Fringe DDO.DP DDO.Cache DDO.Dom DDO.Mdd DDO.Viz DDO.MddStruct DDO.MddExact DDO.Solver.
+     P1  compile_node_depth          id < length (m_nodes m) -> sp_depth root <= n_depth <= N
+         compile_layer_depth         the nodes of layer i have depth sp_depth root + i (and are in range)
+         compile_next_depth          the nodes of the terminal layer m_next have depth N
+         compile_best_depth          m_best m = Some b \/ m_best_exact m = Some b -> depth of b is N
+         compile_layers_count        length (m_layers m) <= S N
+     P2  cutset_depth                ci_type inp = Relaxed -> every sp of drain_cutset has
+                                     sp_depth root < sp_depth sp <= N   (dd_is_exact m = false not needed)
+     P3  cutset_nodup                NoDup (m_cutset m)
+         compile_node_count          (Relaxed) length (m_nodes m) <= Mbound
+         cutset_size_bound           (Relaxed) length (drain_cutset inp m) <= Mbound,
+                                     Mbound = 3 + D + D*D + N * (1 + ci_width inp * D)
+     P4  good / feasible (section Semantics), good_set_ub_holds, good_root_node_gen,
+         cutset_good, best_exact_feasible    (both assume good pb root)
+   and, in section Assembly, the same in the exact shape of the hypotheses of SolverProofs.v for
+   inp = mk_input cfg ct n lb:  good_root_holds, K0_holds, K1_holds, K3_good_holds, K3_depth_holds, K5_holds
+   (hypotheses: st_eqb_spec, config_ok cfg, cfg_clean, cfg_width, cfg_nv_some, cfg_nv_none, and
+   cfg_dom_bound for K5_holds with M := Kbound).
+   No statement had to be weakened (no _partial).  Stdlib only; no axioms.
+
+   Plan: 1. growth relation [keep]   2. depth invariant [Pinv] and its preservation by append_edge,
+   branch_on, expand_node, the filters, restrict / relax   3. loop invariant [Linv], one iteration
+   4. layer_loop ends with LoopDone   5-8. _finalize   9. theorems   10. sizes   11. semantics   12. K*. *)
+Require Import DDO.Base DDO.Fringe DDO.DP DDO.Cache DDO.Dom DDO.Mdd DDO.Viz DDO.MddStruct DDO.MddExact DDO.Solver
+               DDO.SolverProofs.
 From Coq Require Import Lia List Arith ZArith Bool Permutation.
 Import ListNotations.
 Open Scope nat_scope.
@@ -68,6 +94,35 @@ Proof.
   intros Hf. induction l as [|x l IH]; simpl; auto.
   rewrite app_length. specialize (Hf x). lia.
 Qed.
+
+(* ------------------------------------------------------------------ the abstract semantics used by SolverProofs.v
+   a sub-problem is [good] when its path is (a permutation of) a decision sequence that replays, through
+   the user's model and with the saturating accumulation of the code, from the initial state to the
+   sub-problem's state and value; a solution is [feasible] with value v when it is (a permutation of) a
+   complete decision sequence replaying to value v *)
+Section Semantics.
+  Context {St : Type}.
+  Variable P : problem St.
+
+  Definition good (n : @subproblem St) : Prop :=
+    sp_depth n <= nb_vars P /\
+    exists ds, length ds = sp_depth n /\ Permutation ds (sp_path n) /\
+               replay_sat P ds (init_state P) (init_value P) = Some (sp_state n, sp_value n).
+
+  Definition feasible (sol : list decision) (v : Z) : Prop :=
+    exists ds st, length ds = nb_vars P /\ Permutation ds sol /\
+                  replay_sat P ds (init_state P) (init_value P) = Some (st, v).
+
+  (* [good] does not look at the upper bound attached to the sub-problem *)
+  Lemma good_set_ub_holds (c : @subproblem St) (u : Z) : good c -> good (set_ub c u).
+  Proof. intros H. exact H. Qed.
+
+  Lemma good_root_node_gen (r : @subproblem St) :
+    sp_state r = init_state P -> sp_value r = init_value P -> sp_path r = [] -> sp_depth r = 0 -> good r.
+  Proof.
+    intros H1 H2 H3 H4. split; [lia|]. exists []. rewrite H3, H4, H1, H2. repeat split. constructor.
+  Qed.
+End Semantics.
 
 Section Progress.
   Context {St : Type}.
@@ -1284,7 +1339,7 @@ Section Progress.
     set (m2 := find_best_node inp tb tb2 m1) in *.
     set (m3 := finalize_exact inp m2) in *.
     set (m4 := finalize_cutset inp m3) in *.
-    pose proof (compute_local_bounds_keq inp m4) as K5.
+    pose proof (compute_local_bounds_keq inp Hclean m4) as K5.
     set (m5 := compute_local_bounds inp m4) in *.
     pose proof (compute_thresholds_keq st_eqb inp m5) as K6.
     set (m6 := compute_thresholds st_eqb inp m5) in *.
@@ -1308,7 +1363,7 @@ Section Progress.
     assert (Hn6 : m_next m6 = m_next m1) by (rewrite Nl6, S4; reflexivity).
     assert (Hbest2 : forall b, m_best m2 = Some b -> In b (m_next m1)).
     { intros b Hb. unfold m2, find_best_node in Hb. msimpl_in Hb.
-      apply MddExact.pick_In in Hb. apply argmax_candidates_In in Hb. exact Hb. }
+      apply MddExact.pick_In in Hb. apply (argmax_candidates_In inp Hclean) in Hb. exact Hb. }
     split; [exact Hcr|]. split; [rewrite Len16, S1; reflexivity|]. split; [|split; [|split; [|split; [|split; [|split; [|split]]]]]].
     - intros id Hid. rewrite Hd. apply (F_depth _ HF1). lia.
     - intros i ids id H1 H2. rewrite Hlayers in H1. destruct (F_layers _ HF1 i ids id H1 H2) as [a b].
@@ -1321,10 +1376,425 @@ Section Progress.
       destruct (is_relaxed_ct (ci_type inp) && has_exact_best_path inp (S (length (m_nodes m2))) m2 (m_best m2)).
       + apply Hbest2; exact Hb.
       + unfold m2, find_best_node in Hb. msimpl_in Hb.
-        apply MddExact.pick_In in Hb. apply argmax_candidates_In in Hb. apply filter_In in Hb. tauto.
+        apply MddExact.pick_In in Hb. apply (argmax_candidates_In inp Hclean) in Hb. apply filter_In in Hb. tauto.
     - rewrite Cs6, Cs5. exact Cnd.
     - intros Hr id Hid. rewrite Cs6, Cs5 in Hid. destruct (Cdep Hr id Hid) as [a b].
       change (m_nodes m3) with (m_nodes m1) in a. change (gn m3 id) with (gn m1 id) in b.
       rewrite Hd. split; [lia|exact b].
   Qed.
+
+  (* ================================================================== 9. the theorems about [compile] *)
+  Lemma compile_unfold tb tb2 c ds polls :
+    exists ml, layer_loop st_eqb inp (S (S N)) (initialize inp c ds polls) = (ml, LoopDone) /\
+               Post ml /\ Sinv inp ml /\ Xs inp ml /\
+               compile st_eqb inp tb tb2 c ds polls = (finalize st_eqb inp tb tb2 ml, Compiled).
+  Proof.
+    destruct (layer_loop_post (S (S N)) (initialize inp c ds polls) (Linv_initialize c ds polls)) as (ml & Hl & HP).
+    { simpl. lia. }
+    destruct (layer_loop_Sinv st_eqb st_eqb_spec inp Hclean (S (S N)) c ds polls) as [HS HX].
+    rewrite Hl in HS, HX. cbn [fst] in HS, HX.
+    exists ml. split; [exact Hl|]. split; [exact HP|]. split; [exact HS|]. split; [exact HX|].
+    unfold compile. cbv zeta. rewrite Hl. reflexivity.
+  Qed.
+
+  (* P0 (K0) *)
+  Theorem compile_completes tb tb2 c ds polls (m : mdd) out :
+    compile st_eqb inp tb tb2 c ds polls = (m, out) -> out = Compiled /\ m_crash m = false.
+  Proof.
+    intros H. destruct (compile_unfold tb tb2 c ds polls) as (ml & _ & HP & HS & HX & Hc).
+    rewrite Hc in H. inversion H; subst. split; [reflexivity|].
+    apply (finalize_facts tb tb2 ml HP HS HX).
+  Qed.
+
+  (* P1 *)
+  Theorem compile_node_depth tb tb2 c ds polls (m : mdd) out id :
+    compile st_eqb inp tb tb2 c ds polls = (m, out) ->
+    id < length (m_nodes m) -> d0 <= n_depth (gn m id) <= N.
+  Proof.
+    intros H. destruct (compile_unfold tb tb2 c ds polls) as (ml & _ & HP & HS & HX & Hc).
+    rewrite Hc in H. inversion H; subst.
+    destruct (finalize_facts tb tb2 ml HP HS HX) as (_ & _ & F & _). apply F.
+  Qed.
+
+  Theorem compile_layer_depth tb tb2 c ds polls (m : mdd) out i ids id :
+    compile st_eqb inp tb tb2 c ds polls = (m, out) ->
+    nth_error (m_layers m) i = Some ids -> In id ids ->
+    id < length (m_nodes m) /\ n_depth (gn m id) = d0 + i.
+  Proof.
+    intros H. destruct (compile_unfold tb tb2 c ds polls) as (ml & _ & HP & HS & HX & Hc).
+    rewrite Hc in H. inversion H; subst.
+    destruct (finalize_facts tb tb2 ml HP HS HX) as (_ & _ & _ & F & _). apply F.
+  Qed.
+
+  Theorem compile_next_depth tb tb2 c ds polls (m : mdd) out id :
+    compile st_eqb inp tb tb2 c ds polls = (m, out) -> In id (m_next m) -> n_depth (gn m id) = N.
+  Proof.
+    intros H. destruct (compile_unfold tb tb2 c ds polls) as (ml & _ & HP & HS & HX & Hc).
+    rewrite Hc in H. inversion H; subst.
+    destruct (finalize_facts tb tb2 ml HP HS HX) as (_ & _ & _ & _ & _ & F & _). apply F.
+  Qed.
+
+  Theorem compile_best_depth tb tb2 c ds polls (m : mdd) out b :
+    compile st_eqb inp tb tb2 c ds polls = (m, out) ->
+    m_best m = Some b \/ m_best_exact m = Some b -> n_depth (gn m b) = N.
+  Proof.
+    intros H Hb. destruct (compile_unfold tb tb2 c ds polls) as (ml & _ & HP & HS & HX & Hc).
+    rewrite Hc in H. inversion H; subst.
+    destruct (finalize_facts tb tb2 ml HP HS HX) as (_ & _ & _ & _ & _ & F & G1 & G2 & _).
+    apply F. destruct Hb as [Hb|Hb]; [apply G1|apply G2]; exact Hb.
+  Qed.
+
+  Theorem compile_layers_count tb tb2 c ds polls (m : mdd) out :
+    compile st_eqb inp tb tb2 c ds polls = (m, out) -> length (m_layers m) <= S N.
+  Proof.
+    intros H. destruct (compile_unfold tb tb2 c ds polls) as (ml & _ & HP & HS & HX & Hc).
+    rewrite Hc in H. inversion H; subst.
+    destruct (finalize_facts tb tb2 ml HP HS HX) as (_ & _ & _ & _ & F & _). exact F.
+  Qed.
+
+  Lemma drain_cutset_In (m : mdd) sp :
+    In sp (drain_cutset inp m) -> exists id, In id (m_cutset m) /\ sp_depth sp = n_depth (gn m id).
+  Proof.
+    unfold drain_cutset. destruct (dd_best_value inp m) as [bv|]; [|intros []].
+    intros Hin. apply in_flat_map in Hin. destruct Hin as (id & Hid & Hsp).
+    destruct (f_marked (n_flags (gn m id))); [|destruct Hsp].
+    destruct Hsp as [<-|[]]. exists id. split; [exact Hid|reflexivity].
+  Qed.
+
+  (* P2 (K3_depth): stronger than asked, [dd_is_exact m = false] is not needed *)
+  Theorem cutset_depth tb tb2 c ds polls (m : mdd) out sp :
+    ci_type inp = Relaxed ->
+    compile st_eqb inp tb tb2 c ds polls = (m, out) ->
+    In sp (drain_cutset inp m) -> d0 < sp_depth sp <= N.
+  Proof.
+    intros Hr H Hin. destruct (compile_unfold tb tb2 c ds polls) as (ml & _ & HP & HS & HX & Hc).
+    rewrite Hc in H. inversion H; subst.
+    destruct (finalize_facts tb tb2 ml HP HS HX) as (_ & _ & Fd & _ & _ & _ & _ & _ & _ & Fc).
+    destruct (drain_cutset_In _ sp Hin) as (id & Hid & ->).
+    destruct (Fc Hr id Hid) as [a b]. specialize (Fd id a). lia.
+  Qed.
+
+  Theorem cutset_nodup tb tb2 c ds polls (m : mdd) out :
+    compile st_eqb inp tb tb2 c ds polls = (m, out) -> NoDup (m_cutset m).
+  Proof.
+    intros H. destruct (compile_unfold tb tb2 c ds polls) as (ml & _ & HP & HS & HX & Hc).
+    rewrite Hc in H. inversion H; subst.
+    apply (finalize_facts tb tb2 ml HP HS HX).
+  Qed.
+
+  (* ================================================================== 10. the size of the diagram (K5) *)
+  Variable D : nat.
+  Hypothesis dom_bound : forall x s, length (domain pb x s) <= D.
+
+  Definition Mbound : nat := 3 + D + D * D + N * (1 + W * D).
+
+  Lemma branch_on_counts (m : mdd) id d :
+    length (m_nodes (branch_on st_eqb inp m id d)) <= S (length (m_nodes m)) /\
+    length (m_next (branch_on st_eqb inp m id d)) <= S (length (m_next m)).
+  Proof.
+    unfold branch_on. cbv zeta. destruct (find_next _ _ _ _).
+    - msimpl. rewrite upd_nth_length. lia.
+    - msimpl. rewrite upd_nth_length, !app_length. simpl. lia.
+  Qed.
+
+  Lemma fold_branch_counts id var vals : forall (m : mdd),
+    length (m_nodes (fold_left (fun m val => branch_on st_eqb inp m id {| d_var := var; d_val := val |}) vals m))
+      <= length (m_nodes m) + length vals /\
+    length (m_next (fold_left (fun m val => branch_on st_eqb inp m id {| d_var := var; d_val := val |}) vals m))
+      <= length (m_next m) + length vals.
+  Proof.
+    induction vals as [|v vals IH]; intros m; simpl; [lia|].
+    destruct (IH (branch_on st_eqb inp m id {| d_var := var; d_val := v |})) as [I1 I2].
+    destruct (branch_on_counts m id {| d_var := var; d_val := v |}) as [B1 B2]. lia.
+  Qed.
+
+  Lemma expand_node_counts var (m : mdd) id :
+    length (m_nodes (expand_node st_eqb inp var m id)) <= length (m_nodes m) + D /\
+    length (m_next (expand_node st_eqb inp var m id)) <= length (m_next m) + D.
+  Proof.
+    unfold expand_node. cbv zeta. destruct (Z.gtb _ _).
+    - match goal with |- context [fold_left _ ?vals ?mm] =>
+        destruct (fold_branch_counts id var vals mm) as [F1 F2]; pose proof (dom_bound var (n_state (gn m id))) as Hd end.
+      msimpl_in F1. msimpl_in F2. rewrite upd_nth_length in F1. lia.
+    - msimpl. rewrite upd_nth_length. lia.
+  Qed.
+
+  Lemma expand_layer_counts var l : forall (m : mdd),
+    length (m_nodes (fold_left (expand_node st_eqb inp var) l m)) <= length (m_nodes m) + length l * D /\
+    length (m_next (fold_left (expand_node st_eqb inp var) l m)) <= length (m_next m) + length l * D.
+  Proof.
+    induction l as [|id l IH]; intros m; simpl; [lia|].
+    destruct (IH (expand_node st_eqb inp var m id)) as [I1 I2].
+    destruct (expand_node_counts var m id) as [E1 E2]. lia.
+  Qed.
+
+  Lemma move_first_layers_len (m m' : mdd) l :
+    move_to_next_layer_clean st_eqb inp m = (m', Some l) ->
+    ci_type inp = Relaxed -> length (m_layers m) <= 1 -> length l <= length (m_next m).
+  Proof.
+    rewrite move_clean_unfold. destruct (m_next m) as [|x nx] eqn:Hn; [discriminate|]. rewrite <- Hn.
+    destruct (prefilter _ _ _ _) as [m1 l1] eqn:H1.
+    destruct (filter_with_dominance _ _ _) as [m2 l2] eqn:H2.
+    destruct (squash_if_needed _ _ _ _) as [m3 l3] eqn:H3.
+    intros H Ht Hl; inversion H; subst.
+    destruct (stages_layers _ _ _ _ _ _ _ _ _ _ H1 H2 H3) as (HL & _ & Hlen).
+    rewrite squash_relaxed_first_layers in H3; [|exact Ht|rewrite HL; exact Hl].
+    inversion H3; subst. exact Hlen.
+  Qed.
+
+  Definition cnt_ok (m : mdd) : Prop :=
+    (length (m_layers m) = 0 -> length (m_nodes m) <= 1 /\ length (m_next m) <= 1) /\
+    (length (m_layers m) = 1 -> length (m_nodes m) <= 2 + D /\ length (m_next m) <= D) /\
+    (2 <= length (m_layers m) ->
+       length (m_nodes m) <= 3 + D + D * D + (length (m_layers m) - 2) * (1 + W * D)).
+
+  Lemma cnt_ok_bound (m : mdd) : cnt_ok m -> length (m_layers m) <= N + 2 -> length (m_nodes m) <= Mbound.
+  Proof.
+    intros (C0 & C1 & C2) Hk. unfold Mbound.
+    destruct (length (m_layers m)) as [|[|k]] eqn:Ek.
+    - destruct C0; auto. lia.
+    - destruct C1; auto. lia.
+    - assert (H2 : 2 <= S (S k)) by lia. specialize (C2 H2).
+      assert (Hm : (S (S k) - 2) * (1 + W * D) <= N * (1 + W * D)) by (apply Nat.mul_le_mono_r; lia).
+      lia.
+  Qed.
+
+  Lemma layer_loop_count : forall fuel (m m' : mdd) e,
+    ci_type inp = Relaxed -> Linv m -> cnt_ok m ->
+    layer_loop st_eqb inp fuel m = (m', e) -> length (m_nodes m') <= Mbound.
+  Proof.
+    induction fuel as [|fuel IH]; intros m m' e Ht HL HC H.
+    - simpl in H. inversion H; subst. apply cnt_ok_bound; [exact HC|].
+      pose proof (L_cd _ HL). pose proof (L_cdN _ HL). lia.
+    - assert (Hhere : length (m_nodes m) <= Mbound).
+      { apply cnt_ok_bound; [exact HC|]. pose proof (L_cd _ HL). pose proof (L_cdN _ HL). lia. }
+      revert H. cbn [layer_loop]. cbv zeta.
+      set (states := map (fun id => n_state (gn m id)) (m_next m)).
+      destruct (next_variable (ci_problem inp) (m_curr_depth m) states) as [var|] eqn:Hv.
+      2:{ intros H; inversion H; subst. exact Hhere. }
+      assert (Hlt : m_curr_depth m < N).
+      { destruct (Nat.lt_ge_cases (m_curr_depth m) N) as [G|G]; [exact G|].
+        rewrite (nv_none _ states G) in Hv. discriminate. }
+      set (m1 := add_log m (EvNextVar (m_curr_depth m) states (Some var))).
+      set (m2 := with_polls m1 (S (m_polls m1))).
+      rewrite Hnocut. change (Nat.ltb 0 0) with false. cbn [andb].
+      rewrite not_pooled'.
+      assert (HL2 : Linv m2) by (apply (Linv_frame m); auto; reflexivity).
+      destruct (move_to_next_layer_clean st_eqb inp m2) as [m3 [l|]] eqn:Hmv.
+      2:{ intros H; inversion H; subst. destruct (move_none_inv m2 m' Hmv) as [_ ->]. exact Hhere. }
+      pose proof (move_some_step m2 m3 l Hmv HL2) as HM.
+      destruct (expand_finish var m2 m3 l HM Hlt) as [HL4 Hcd4].
+      destruct (expand_layer_counts var l m3) as [X1 X2].
+      set (m4 := fold_left (expand_node st_eqb inp var) l m3) in *.
+      intros H. apply (IH _ _ _ Ht HL4) in H; [exact H|].
+      (* the counters after one more layer *)
+      pose proof (M_len _ _ _ HM) as Hlen3. change (m_nodes m2) with (m_nodes m) in Hlen3.
+      rewrite (M_next _ _ _ HM) in X2. simpl in X2.
+      destruct (M_layers _ _ _ HM) as [ids Hly]. change (m_layers m2) with (m_layers m) in Hly.
+      pose proof (expand_layer_step var (m_curr_depth m2) l m3 (M_P _ _ _ HM) (M_l _ _ _ HM)) as [_ Hk4].
+      assert (Hk5 : length (m_layers (with_depth m4 (S (m_curr_depth m4)))) = S (length (m_layers m))).
+      { msimpl. fold m4 in Hk4. rewrite (k_layers _ _ Hk4), Hly, app_length. simpl. lia. }
+      destruct HC as (C0 & C1 & C2).
+      unfold cnt_ok. rewrite Hk5. msimpl.
+      destruct (length (m_layers m)) as [|[|k]] eqn:Ek.
+      + destruct C0 as [c1 c2]; auto.
+        assert (Hl : length l <= 1).
+        { pose proof (move_first_layers_len m2 m3 l Hmv Ht) as G. change (m_layers m2) with (m_layers m) in G.
+          change (m_next m2) with (m_next m) in G. rewrite Ek in G. specialize (G ltac:(lia)). lia. }
+        assert (Hm : length l * D <= 1 * D) by (apply Nat.mul_le_mono_r; exact Hl).
+        split; [discriminate|]. split; [intros _; lia|intros G; lia].
+      + destruct C1 as [c1 c2]; auto.
+        assert (Hl : length l <= D).
+        { pose proof (move_first_layers_len m2 m3 l Hmv Ht) as G. change (m_layers m2) with (m_layers m) in G.
+          change (m_next m2) with (m_next m) in G. rewrite Ek in G. specialize (G ltac:(lia)). lia. }
+        assert (Hm : length l * D <= D * D) by (apply Nat.mul_le_mono_r; exact Hl).
+        split; [discriminate|]. split; [discriminate|]. intros _. simpl. lia.
+      + assert (H2 : 2 <= S (S k)) by lia. specialize (C2 H2).
+        assert (Hl : length l <= W).
+        { apply (move_clean_width_relaxed st_eqb inp m2 m3 l Hmv Ht); [|exact Hwidth].
+          change (m_layers m2) with (m_layers m). rewrite Ek. lia. }
+        assert (Hm : length l * D <= W * D) by (apply Nat.mul_le_mono_r; exact Hl).
+        split; [discriminate|]. split; [discriminate|]. intros _.
+        replace (S (S (S k)) - 2) with (S (S (S k) - 2)) by lia.
+        rewrite Nat.mul_succ_l. lia.
+  Qed.
+
+  Lemma compile_node_count tb tb2 c ds polls (m : mdd) out :
+    ci_type inp = Relaxed ->
+    compile st_eqb inp tb tb2 c ds polls = (m, out) -> length (m_nodes m) <= Mbound.
+  Proof.
+    intros Ht H. destruct (compile_unfold tb tb2 c ds polls) as (ml & Hl & HP & HS & HX & Hc).
+    rewrite Hc in H. inversion H; subst.
+    destruct (finalize_facts tb tb2 ml HP HS HX) as (_ & -> & _).
+    eapply layer_loop_count; [exact Ht|apply Linv_initialize| |exact Hl].
+    split; [|split]; simpl; intros; try discriminate; lia.
+  Qed.
+
+  (* P3 (K5) *)
+  Theorem cutset_size_bound tb tb2 c ds polls (m : mdd) out :
+    ci_type inp = Relaxed ->
+    compile st_eqb inp tb tb2 c ds polls = (m, out) -> length (drain_cutset inp m) <= Mbound.
+  Proof.
+    intros Ht H.
+    pose proof (compile_node_count tb tb2 c ds polls m out Ht H) as Hn.
+    destruct (compile_unfold tb tb2 c ds polls) as (ml & Hl & HP & HS & HX & Hc).
+    rewrite Hc in H. inversion H; subst. clear H.
+    destruct (finalize_facts tb tb2 ml HP HS HX) as (_ & _ & _ & _ & _ & _ & _ & _ & Fnd & Fc).
+    set (m := finalize st_eqb inp tb tb2 ml) in *.
+    assert (H1 : length (drain_cutset inp m) <= length (m_cutset m)).
+    { unfold drain_cutset. destruct (dd_best_value inp m); [|simpl; lia].
+      apply flat_map_length_le. intros id. destruct (f_marked _); simpl; lia. }
+    assert (H2 : length (m_cutset m) <= length (m_nodes m)).
+    { apply NoDup_bounded_length; [exact Fnd|]. intros id Hid. apply (Fc Ht id Hid). }
+    lia.
+  Qed.
+
+  (* ================================================================== 11. the abstract semantics (K1, K3_good) *)
+  Theorem cutset_good tb tb2 c ds polls (m : mdd) out sp :
+    good pb root ->
+    compile st_eqb inp tb tb2 c ds polls = (m, out) ->
+    In sp (drain_cutset inp m) -> good pb sp.
+  Proof.
+    intros (Hr0 & ds0 & G1 & G2 & G3) H Hin.
+    destruct (compile_completes tb tb2 c ds polls m out H) as [-> _].
+    destruct (cutset_nodes_exact st_eqb st_eqb_spec inp Hclean tb tb2 c ds polls m sp H Hin)
+      as (id & _ & Hlt & _ & _ & Hpath & _ & _ & Hdep & Hrep & Hlen).
+    split.
+    - rewrite Hdep. apply (compile_node_depth tb tb2 c ds polls m Compiled id H Hlt).
+    - exists (ds0 ++ rev (chain inp m id)). split; [|split].
+      + rewrite app_length, rev_length, G1, Hlen. reflexivity.
+      + rewrite Hpath. apply Permutation_app; [exact G2|]. apply Permutation_sym, Permutation_rev.
+      + rewrite replay_sat_app, G3. exact Hrep.
+  Qed.
+
+  Theorem best_exact_feasible tb tb2 c ds polls (m : mdd) out v :
+    good pb root ->
+    compile st_eqb inp tb tb2 c ds polls = (m, out) ->
+    dd_best_exact_value inp m = Some v ->
+    exists sol, dd_best_exact_solution inp m = Some sol /\ feasible pb sol v.
+  Proof.
+    intros (Hr0 & ds0 & G1 & G2 & G3) H Hv.
+    destruct (compile_completes tb tb2 c ds polls m out H) as [-> _].
+    unfold dd_best_exact_value in Hv. unfold dd_best_exact_solution.
+    destruct (m_best_exact m) as [b|] eqn:Eb; [|discriminate]. simpl in Hv. inversion Hv; subst v. simpl.
+    destruct (best_exact_solution_genuine st_eqb st_eqb_spec inp Hclean tb tb2 c ds polls m b H Eb)
+      as (Hlt & _ & Hrep & Hpath & Hlen).
+    pose proof (compile_best_depth tb tb2 c ds polls m Compiled b H (or_intror Eb)) as HdN.
+    eexists. split; [reflexivity|].
+    exists (ds0 ++ rev (chain inp m b)), (n_state (gn m b)). split; [|split].
+    - rewrite app_length, rev_length, G1, Hlen, HdN. lia.
+    - rewrite Hpath. apply Permutation_app; [exact G2|]. apply Permutation_sym, Permutation_rev.
+    - rewrite replay_sat_app, G3. exact Hrep.
+  Qed.
 End Progress.
+
+(* ------------------------------------------------------------------ 12. the contracts of SolverProofs.v
+   [mk_input cfg ct n lb] meets the section hypotheses of [Progress] as soon as the configuration is
+   [config_ok] (no cache, no dominance rule, no cutoff), uses a clean diagram flavour, a width >= 1,
+   and the problem has a static variable order:
+     ci_use_cache (mk_input ..) = sc_use_cache cfg,  ci_domrule = sc_domrule cfg,  ci_cutoff = sc_cutoff cfg,
+     ci_flavour = sc_flavour cfg,  ci_width = sc_width cfg,  ci_problem = sc_problem cfg,  ci_root = n
+   all by computation.  Each K*_holds below is stated exactly like the hypothesis K* of SolverProofs.v,
+   with good := good (sc_problem cfg), feasible := feasible (sc_problem cfg), M := Kbound. *)
+Section Assembly.
+  Context {St : Type}.
+  Variable st_eqb : St -> St -> bool.
+  Hypothesis st_eqb_spec : forall a b, st_eqb a b = true <-> a = b.
+  Variable cfg : @sconfig St.
+  Notation P := (sc_problem cfg).
+  Notation N := (nb_vars (sc_problem cfg)).
+
+  Hypothesis cfg_ok : config_ok cfg.
+  Hypothesis cfg_clean : sc_flavour cfg = CleanLEL \/ sc_flavour cfg = CleanFC.
+  Hypothesis cfg_width : 1 <= sc_width cfg.
+  Hypothesis cfg_nv_some : forall k l, k < N -> exists x, next_variable P k l = Some x.
+  Hypothesis cfg_nv_none : forall k l, N <= k -> next_variable P k l = None.
+
+  Lemma mk_input_fields ct (n : @subproblem St) lb :
+    ci_flavour (mk_input cfg ct n lb) = sc_flavour cfg /\ ci_type (mk_input cfg ct n lb) = ct /\
+    ci_problem (mk_input cfg ct n lb) = sc_problem cfg /\ ci_width (mk_input cfg ct n lb) = sc_width cfg /\
+    ci_root (mk_input cfg ct n lb) = n /\ ci_best_lb (mk_input cfg ct n lb) = lb /\
+    ci_use_cache (mk_input cfg ct n lb) = sc_use_cache cfg /\ ci_domrule (mk_input cfg ct n lb) = sc_domrule cfg /\
+    ci_cutoff (mk_input cfg ct n lb) = sc_cutoff cfg.
+  Proof. repeat split. Qed.
+
+  (* the hypothesis good_root of SolverProofs.v *)
+  Lemma good_root_holds : good P (root_node cfg).
+  Proof. apply good_root_node_gen; reflexivity. Qed.
+
+  Theorem K0_holds : forall ct n lb c ds polls m out,
+    dd_ct ct -> good P n -> sp_depth n <= N ->
+    compile st_eqb (mk_input cfg ct n lb) 0 0 c ds polls = (m, out) ->
+    out = Compiled /\ m_crash m = false.
+  Proof.
+    intros ct n lb c ds polls m out _ _ Hd H. destruct cfg_ok as (O1 & O2 & O3 & _).
+    exact (compile_completes st_eqb st_eqb_spec (mk_input cfg ct n lb) cfg_clean O1 O2 O3 cfg_width
+             cfg_nv_some cfg_nv_none Hd 0 0 c ds polls m out H).
+  Qed.
+
+  Theorem K1_holds : forall ct n lb c ds polls m out,
+    dd_ct ct -> good P n -> sp_depth n <= N ->
+    compile st_eqb (mk_input cfg ct n lb) 0 0 c ds polls = (m, out) ->
+    forall v, dd_best_exact_value (mk_input cfg ct n lb) m = Some v ->
+    exists sol, dd_best_exact_solution (mk_input cfg ct n lb) m = Some sol /\ feasible P sol v.
+  Proof.
+    intros ct n lb c ds polls m out _ Hg Hd H v Hv. destruct cfg_ok as (O1 & O2 & O3 & _).
+    exact (best_exact_feasible st_eqb st_eqb_spec (mk_input cfg ct n lb) cfg_clean O1 O2 O3 cfg_width
+             cfg_nv_some cfg_nv_none Hd 0 0 c ds polls m out v Hg H Hv).
+  Qed.
+
+  Theorem K3_good_holds : forall n lb c ds polls m out,
+    good P n -> sp_depth n <= N ->
+    compile st_eqb (mk_input cfg Relaxed n lb) 0 0 c ds polls = (m, out) ->
+    dd_is_exact m = false ->
+    forall x, In x (drain_cutset (mk_input cfg Relaxed n lb) m) -> good P x.
+  Proof.
+    intros n lb c ds polls m out Hg Hd H _ x Hx. destruct cfg_ok as (O1 & O2 & O3 & _).
+    exact (cutset_good st_eqb st_eqb_spec (mk_input cfg Relaxed n lb) cfg_clean O1 O2 O3 cfg_width
+             cfg_nv_some cfg_nv_none Hd 0 0 c ds polls m out x Hg H Hx).
+  Qed.
+
+  Theorem K3_depth_holds : forall n lb c ds polls m out,
+    good P n -> sp_depth n <= N ->
+    compile st_eqb (mk_input cfg Relaxed n lb) 0 0 c ds polls = (m, out) ->
+    dd_is_exact m = false ->
+    forall x, In x (drain_cutset (mk_input cfg Relaxed n lb) m) -> sp_depth n < sp_depth x <= N.
+  Proof.
+    intros n lb c ds polls m out _ Hd H _ x Hx. destruct cfg_ok as (O1 & O2 & O3 & _).
+    exact (cutset_depth st_eqb st_eqb_spec (mk_input cfg Relaxed n lb) cfg_clean O1 O2 O3 cfg_width
+             cfg_nv_some cfg_nv_none Hd 0 0 c ds polls m out x eq_refl H Hx).
+  Qed.
+
+  Variable D : nat.
+  Hypothesis cfg_dom_bound : forall x s, length (domain P x s) <= D.
+
+  Definition Kbound : nat := 3 + D + D * D + N * (1 + sc_width cfg * D).
+
+  Theorem K5_holds : forall n lb c ds polls m out,
+    good P n -> sp_depth n <= N ->
+    compile st_eqb (mk_input cfg Relaxed n lb) 0 0 c ds polls = (m, out) ->
+    dd_is_exact m = false ->
+    length (drain_cutset (mk_input cfg Relaxed n lb) m) <= Kbound.
+  Proof.
+    intros n lb c ds polls m out _ Hd H _. destruct cfg_ok as (O1 & O2 & O3 & _).
+    exact (cutset_size_bound st_eqb st_eqb_spec (mk_input cfg Relaxed n lb) cfg_clean O1 O2 O3 cfg_width
+             cfg_nv_some cfg_nv_none Hd D cfg_dom_bound 0 0 c ds polls m out eq_refl H).
+  Qed.
+End Assembly.
+
+(* ------------------------------------------------------------------ assumptions *)
+Print Assumptions compile_completes.
+Print Assumptions compile_node_depth.
+Print Assumptions compile_layer_depth.
+Print Assumptions compile_best_depth.
+Print Assumptions cutset_depth.
+Print Assumptions cutset_nodup.
+Print Assumptions cutset_size_bound.
+Print Assumptions cutset_good.
+Print Assumptions best_exact_feasible.
+Print Assumptions good_set_ub_holds.
+Print Assumptions K0_holds.
+Print Assumptions K1_holds.
+Print Assumptions K3_good_holds.
+Print Assumptions K3_depth_holds.
+Print Assumptions K5_holds.
